@@ -383,6 +383,8 @@ pub fn run(run: &mut Run) {
     };
     let res = explore(&m, &cfg);
     super::seq_report(run, &m, &res, &cfg);
+    let deep = ["Set { key: \"a\", val: \"1\" }", "Set { key: \"a\", val: \"é\" }", "Set { key: \"bb\", val: \"1\" }", "Remove { key: \"a\" }", "Inc { key: \"a\" }", "Snapshot { reclaim: false, order: 0 }", "Snapshot { reclaim: true, order: 0 }", "Restart"];
+    super::deep_pass(run, &m, &deep, if quick { 5 } else { 7 }, if quick { 30 } else { 1200 });
     run.assume("the search starts from three root states: empty database, {a,bb} persisted, {a,bb} persisted then a removed and persisted; the depth bound counts from each root");
     run.assume("every state reached by a snapshot letter is additionally restarted on a copy of its directory (so a depth-d history covers the d+1 step 'then restart')");
     run.assume("snapshots run with no concurrent writers (schedule quantifier not part of C06)");
